@@ -87,6 +87,12 @@ type panicStringer struct{}
 
 func (panicStringer) String() string { panic("String() of a hostile value") }
 
+// String() panics with the value itself: the recovered panic value is again a Stringer
+// whose String() panics (fmt gives up on such nested panics and re-panics)
+type selfPanicStringer struct{}
+
+func (s selfPanicStringer) String() string { panic(s) }
+
 type ptrStringer struct{ s string }
 
 func (p *ptrStringer) String() string { return p.s } // nil receiver: nil dereference
@@ -160,6 +166,8 @@ func buildVal(x *sexp) (interface{}, error) {
 			return panicStringer{}, nil
 		case "strnilptr":
 			return (*ptrStringer)(nil), nil
+		case "strselfpanic":
+			return selfPanicStringer{}, nil
 		case "nilmap":
 			return map[string]interface{}(nil), nil
 		}
